@@ -57,12 +57,13 @@ CLAIMED.update({
            'from the header, and that the chain starts from the hash of the whole seed.'),
 })
 CLAIMED.update({
- 'C07': _c('abstract interpretation with byte/bit-field terms over all 64 final-block sizes; inductive loop step; reduced-constant object simulation',
-           'Decides: initial chaining words and SHA-256 K equal values derived from first principles; for every final-block size 0..63 and a '
-           'symbolic block count the padded message is msg || 0x80 || 0* || 64-bit length in the right byte order (this covers the bit counter '
-           'and its width); digest byte order; string driver for 0..3 blocks x 64 residues plus the inductive step of its block loop; file '
-           'driver unit sequence; the file buffer both by an inductive invariant per call and by simulating the object for a reduced unit '
-           'count over 331 file lengths. The compress functions themselves (round arithmetic) are not yet covered by term conformance.'),
+ 'C07': dict(category='proof', technique='term conformance of the compress functions + symbolic finaliser for all residues + induction over the driver loop + object simulation',
+             text='Compress functions equal FIPS 180-4 / RFC 1321 as canonical word terms for free chaining words and message bytes; the finaliser yields '
+                  'the standard padding and 64-bit length for every final-block size with a symbolic block count; the string driver is correct by base / '
+                  'inductive step / exit step at symbolic iteration and residue; file driver unit sequence; file buffer by inductive invariant (real '
+                  'constant) and exhaustive object simulation (reduced constant); initial values, K and output order from first principles.',
+             note='Trusted: clang front end, extractor, interpreter and term canonicalisers, spec/sha.py (self-tested against hashlib), fread model. '
+                  'Assumes the file buffer is parametric in its unit-count constant, messages < 2^61 bytes, little-endian target.'),
  'C09': dict(category='proof', technique='term conformance: abstract interpretation over hash-consed byte terms vs a FIPS-197 reference built from the text',
              text='The key-schedule constructor and both single-block functions are interpreted over free key / round-key / block bytes; the 176+16+16 '
                   'output terms are identical (canonical xor-of-table DAGs) to those of a reference written from FIPS-197 5.1-5.3; tables equal '
